@@ -434,6 +434,12 @@ fn gen_c15(tier: &Tier, rng: &mut Rng, w: usize, nw: usize, out: &mut Vec<Case>)
             format!("rdr mem inf {} {}", calls('n', if rng.chance(1, 16) { 300 } else { 16 }), st),
             format!("rdr io inf {} {}", calls('n', 16), st),
         ];
+        if rng.chance(1, 4) {
+            // a source that yields `None` after `s` and more bytes later (a non-fused iterator): `decode` and
+            // `decode_streaming` both stop for good at the first `None`
+            let more = if rng.chance(1, 2) { spec::frame(&rand_payload(rng, 6)) } else { alpha_range(rng, 1, 12) };
+            lines.push(format!("iterx inf {} {} 4", st, tok(&more)));
+        }
         if let Some(c) = big {
             lines.push(format!("dec {} {} F", c, st));
             lines.push(format!("iter {} {} 2", c, st));
